@@ -200,11 +200,18 @@ def run_path(I: Interp, finfo: FuncInfo, con: Contract):
                 check_frame(I, st.entry_heap, st.alloc_entry, con.modifies, sf, "frame", f"raise.{name}")
             return
         sf.locals["result"] = ret
-        for label, e in con.ensures:
-            st.oblige("post", label, spec_bool(I, e, sf))
+        # goals are evaluated first so that small-scope assumptions made while grounding quantifiers (refutation
+        # mode) and typing assumptions are in force for every obligation of the path
+        goals = [(label, spec_bool(I, e, sf)) for label, e in con.ensures]
+        for label, g in goals:
+            st.oblige("post", label, g)
         for nm in con.invariants:
             st.oblige("inv", nm, invariant_formula(I, nm, sf))
         check_frame(I, st.entry_heap, st.alloc_entry, con.modifies, sf, "frame", "exit")
+        if not con.allocates and not z3.eq(smt.simp(st.alloc), smt.simp(st.alloc_entry)):
+            # objects were allocated: they must not be reachable afterwards unless the contract says `allocates`;
+            # conservatively require the declaration
+            st.oblige("frame", "no_allocation_declared", z3.BoolVal(False))
     finally:
         st.old_stack.pop()
 
